@@ -219,3 +219,17 @@ PROPS.update({
                                          "native runs see x86-64 memory ordering; Relaxed reorderings are explored only by the Miri shard"],
     },
 })
+
+PROPS.update({
+    "C17": {
+        "level": "exploration",
+        "rule": "generated minified programs (1..4 lines; function declarations, calls, var statements, string literals with non-ASCII / astral characters before declarations; names from a closed pool incl. prefixes of one another, non-ASCII, astral, ZWJ, and the word 'function'), maps with tokens on / before / after the declarations, past the end of lines and on missing lines; up to 60 positions x 21 candidate names (9 non-identifiers) per program; 4% long programs with 90..175 tokens between declaration and call site for the 128-token limit; index maps with 1..3 sections on their own lines; non-trivial = program with >= 2 function declarations; distinct by hash of (text, token positions)",
+        "steps": [MAIN, miri(mode="miri", nshards=16), asan(scale=10)],
+        "required_buckets": {"all": ["resolved-to-a-name", "resolved-on-line-with-non-ascii", "non-ascii-identifier-resolved", "multi-line-program",
+                                     "non-identifier-candidate->None", "token-past-end-of-line-or-on-missing-line", "walk:pair-within-limit",
+                                     "walk:pair-beyond-limit", "index:resolved-in-first-section", "index-with-section-at-nonzero-offset"]},
+        "assumptions": COMMON_ASSUME + ["identifier classification over the closed character pool of the generator is hard-coded in the harness (independent of unicode-id-start)",
+                                         "'at most 128': a pair within the first 120 walked tokens must be found, none within 136 must give nothing, the band in between is not asserted",
+                                         "token columns never point into the middle of a surrogate pair; token positions are unique within a map"],
+    },
+})
